@@ -2,6 +2,7 @@ import HgVerif.Lemmas.SlotsSet
 import HgVerif.Lemmas.SlotsDict
 import HgVerif.Lemmas.SlotsDictV
 import HgVerif.Lemmas.SlotsWin
+import HgVerif.Lemmas.SlotsFixed
 /-!
 # C05 — collection deltas are coherent with collection values at every tick
 
@@ -36,6 +37,12 @@ TSD (`TSD<Int, TS<Int>>`; value = live keys whose child has a value)
   (+ `tsd_vinv_reachable`, `tsd_vghost_is_cycle_start`) proves the statement for all clean histories;
   `tsd_value_delta_partial` holds unconditionally.  `TSDKeySetCoherent` / `tsd_keyset_incoherent`: the
   `key_set()` projection is not coherent when a key is created without a value (second defect).
+
+fixed TSL / TSB (ceiling; `TSL<TS<Int>, n>` driven, TSB shares `ts_data_fixed_structured_ops.cpp`)
+* `fixed_cycle_coherent`   : after the child writes of one cycle the children whose time equals the parent's
+                             (`modified_items()`, the delta map) are exactly the children written in the cycle,
+                             all other children keep value and time; `fixed_wf_reachable` gives its hypotheses
+                             for every run with increasing cycle times.
 
 tick TSW (`TSW<Int>`, period N, min_period m)
 * `window_last_n`          : after ANY operation sequence the window holds exactly the last `min(k, N)` accepted
@@ -1086,6 +1093,101 @@ theorem window_evicted (N minPeriod : Nat) (hN : 0 < N) (ops : List WinOp) (t : 
   exact ⟨trivial, hp.1, hp.2⟩
 
 
+/-! ## fixed TSL / TSB (ceiling): the modified children are exactly the children written in the cycle -/
+
+/-- all child writes of one engine cycle at time `T` -/
+def Fixed.cycle (x : Fixed) (T : Time) (ws : List (Nat × Int)) : Fixed :=
+  ws.foldl (fun y w => y.write w.1 T w.2) x
+
+theorem fixed_cycle_aux (T : Time) (ws : List (Nat × Int)) : ∀ (x : Fixed), x.WF → x.lmt ≤ T →
+    (∀ w ∈ ws, w.1 < x.kids.length) →
+    (x.cycle T ws).kids.length = x.kids.length ∧ (x.cycle T ws).WF ∧ (ws ≠ [] → (x.cycle T ws).lmt = T) ∧
+    (x.cycle T ws).lmt ≤ T ∧ x.lmt ≤ (x.cycle T ws).lmt ∧
+    ∀ i, i < x.kids.length →
+      (((x.cycle T ws).kids.getD i (0, 0)).2 = T ↔ ((x.kids.getD i (0, 0)).2 = T ∨ i ∈ ws.map (·.1))) ∧
+      (i ∉ ws.map (·.1) → (x.cycle T ws).kids.getD i (0, 0) = x.kids.getD i (0, 0)) := by
+  induction ws with
+  | nil => intro x h hT _; simp [Fixed.cycle, h, hT]
+  | cons w rest ih =>
+    intro x h hT hidx
+    have hw : w.1 < x.kids.length := hidx w (by simp)
+    have he := Fixed.write_sorted h w.2 hw hT
+    have hwf := Fixed.write_wf h w.2 hw hT
+    have hlen : (x.write w.1 T w.2).kids.length = x.kids.length := by rw [he]; simp
+    have hl1 : (x.write w.1 T w.2).lmt = T := by rw [he]
+    obtain ⟨i1, i2, i3, i4, i5, i6⟩ := ih (x.write w.1 T w.2) hwf (by rw [hl1]; exact Nat.le_refl T)
+      (by intro w' hw'; rw [hlen]; exact hidx w' (by simp [hw']))
+    have hc : x.cycle T (w :: rest) = (x.write w.1 T w.2).cycle T rest := rfl
+    rw [hc]
+    refine ⟨by rw [i1, hlen], i2, fun _ => by omega, i4, by omega, ?_⟩
+    intro i hi
+    obtain ⟨j1, j2⟩ := i6 i (by rw [hlen]; exact hi)
+    have hget : (x.write w.1 T w.2).kids.getD i (0, 0) = if w.1 = i then (w.2, T) else x.kids.getD i (0, 0) := by
+      rw [he]
+      simp only [List.getD_eq_getElem?_getD, List.getElem?_set]
+      by_cases hwi : w.1 = i
+      · subst hwi; simp [hw]
+      · simp [hwi]
+    constructor
+    · rw [j1, hget]
+      by_cases hwi : w.1 = i
+      · simp [hwi]
+      · have : ¬ i = w.1 := fun e => hwi e.symm
+        simp [hwi, this]
+    · intro hni
+      simp only [List.map_cons, List.mem_cons, not_or] at hni
+      rw [j2 hni.2, hget]
+      have : ¬ w.1 = i := fun e => hni.1 e.symm
+      simp [this]
+
+/-- **fixed TSL / TSB: value' = value with the modified children replaced**.  After a cycle of child writes at
+    a time `T` later than the last tick, the children whose time equals the parent's (what `modified_items()`
+    and the delta map show) are exactly the children written in the cycle, every other child keeps its value
+    and time, and the parent ticked at `T`. -/
+theorem fixed_cycle_coherent (x : Fixed) (h : x.WF) (T : Time) (hT : x.lmt < T) (ws : List (Nat × Int))
+    (hidx : ∀ w ∈ ws, w.1 < x.kids.length) (hne : ws ≠ []) :
+    (x.cycle T ws).lmt = T ∧ (x.cycle T ws).kids.length = x.kids.length ∧ (x.cycle T ws).WF ∧
+    ∀ i, i < x.kids.length →
+      (((x.cycle T ws).kids.getD i (0, 0)).2 = (x.cycle T ws).lmt ↔ i ∈ ws.map (·.1)) ∧
+      (i ∉ ws.map (·.1) → (x.cycle T ws).kids.getD i (0, 0) = x.kids.getD i (0, 0)) := by
+  obtain ⟨a1, a2, a3, _, _, a6⟩ := fixed_cycle_aux T ws x h (by omega) hidx
+  refine ⟨a3 hne, a1, a2, ?_⟩
+  intro i hi
+  obtain ⟨b1, b2⟩ := a6 i hi
+  refine ⟨?_, b2⟩
+  rw [a3 hne, b1]
+  have hne' : (x.kids.getD i (0, 0)).2 ≠ T := by
+    have hm : x.kids.getD i (0, 0) = x.kids[i] := by simp [List.getD, hi]
+    have := h.le _ (hm ▸ List.getElem_mem hi)
+    omega
+  constructor
+  · rintro (e | e)
+    · exact absurd e hne'
+    · exact e
+  · exact Or.inr
+
+/-- the hypotheses of `fixed_cycle_coherent` hold at the start of every cycle: states reached by cycles with
+    increasing times are well formed, keep their size, and never tick later than the latest cycle -/
+theorem fixed_wf_reachable (cycles : List (Time × List (Nat × Int))) : ∀ (x : Fixed) (b : Nat), x.WF →
+    (∀ c ∈ cycles, ∀ w ∈ c.2, w.1 < x.kids.length) → cycles.Pairwise (fun a b => a.1 < b.1) →
+    (∀ c ∈ cycles, x.lmt < c.1) → (∀ c ∈ cycles, c.1 ≤ b) → x.lmt ≤ b →
+    (cycles.foldl (fun y c => y.cycle c.1 c.2) x).WF ∧
+    (cycles.foldl (fun y c => y.cycle c.1 c.2) x).kids.length = x.kids.length ∧
+    (cycles.foldl (fun y c => y.cycle c.1 c.2) x).lmt ≤ b := by
+  induction cycles with
+  | nil => intro x b h _ _ _ _ hb; exact ⟨h, rfl, hb⟩
+  | cons c rest ih =>
+    intro x b h hidx hs hlt hbb hb
+    have hc := hlt c (by simp)
+    obtain ⟨a1, a2, _, a4, _, _⟩ := fixed_cycle_aux c.1 c.2 x h (by omega) (hidx c (by simp))
+    have hs' := List.pairwise_cons.mp hs
+    obtain ⟨i1, i2, i3⟩ := ih (x.cycle c.1 c.2) b a2
+      (fun c' hc' => by rw [a1]; exact hidx c' (by simp [hc'])) hs'.2
+      (fun c' hc' => by have := hs'.1 c' hc'; omega)
+      (fun c' hc' => hbb c' (by simp [hc'])) (by have := hbb c (by simp); omega)
+    simp only [List.foldl_cons]
+    exact ⟨i1, by rw [i2, a1], i3⟩
+
 /-! ## non-vacuity: concrete non-trivial states meeting the hypotheses -/
 
 /-- a reachable TSS state with a non-empty window-start value, an added and a removed key, a pending-erase
@@ -1132,6 +1234,12 @@ example :
     CleanHistory {} [.set 1 1 10, .set 1 2 20, .erase 2 2, .set 2 2 21, .set 2 1 11, .set 2 3 30, .erase 2 3] ∧
     cleanHistoryB {} [.set 1 1 10, .erase 1 1, .set 1 1 12] = false :=
   ⟨cleanHistory_of_B _ _ (by decide), by decide⟩
+
+/-- hypotheses of `fixed_cycle_coherent`: a 3-child list after a first cycle, second cycle writes children 1 and 1 -/
+example :
+    let x := (Fixed.init 3).cycle 1 [(0, 5), (2, 7)]
+    x.lmt < 2 ∧ (∀ w ∈ [((1 : Nat), (9 : Int)), (1, 4)], w.1 < x.kids.length) ∧
+    (x.cycle 2 [(1, 9), (1, 4)]).kids = [(5, 1), (4, 2), (7, 1)] := by decide
 
 /-- a window of period 3 after 5 pushes and the hypotheses of `window_evicted` for a sixth -/
 example :
